@@ -256,6 +256,33 @@ type hostEnv struct {
 }
 
 // inj(): the host injects the name `late` while a rule is running
+// injS(): the host injects the name `ls` (a pointer to a fresh struct) while a rule is running
+func (h *hostEnv) injectStruct() {
+	h.mu.Lock()
+	defer h.mu.Unlock()
+	if _, ok := h.objs["ls"]; ok {
+		return
+	}
+	var fs [][2]interface{}
+	for _, f := range hostFields {
+		k := fieldKind(f)
+		z := JVal{k, "0"}
+		switch k {
+		case "string":
+			z = JVal{k, ""}
+		case "bool":
+			z = JVal{k, "false"}
+		}
+		fs = append(fs, [2]interface{}{f, z})
+	}
+	obj := &HostS{}
+	h.specs = append(h.specs, ObjSpec{Name: "ls", Type: "struct", Ptr: true, Fields: fs})
+	h.objs["ls"] = obj
+	if h.dc != nil {
+		h.dc.Add("ls", obj)
+	}
+}
+
 func (h *hostEnv) inject() {
 	h.mu.Lock()
 	defer h.mu.Unlock()
@@ -291,6 +318,8 @@ func (h *hostEnv) funcValue(id string) interface{} {
 		return func(x int64) { time.Sleep(150 * time.Microsecond); h.rec("obsC", x) }
 	case "inj":
 		return func() { h.inject() }
+	case "injS":
+		return func() { h.injectStruct() }
 	case "tick":
 		return func() int64 { return atomic.AddInt64(&h.tickN, 1) }
 	case "sync":
@@ -519,7 +548,7 @@ func genHostEnv(r *rng) *hostEnv {
 	add(ObjSpec{Name: "AU", Type: "slice", Ptr: true, ElemK: "uint8", Elems: els("uint8", 2)})
 	add(ObjSpec{Name: "ARR", Type: "slice", Ptr: true, IsArray: true, ElemK: "int16", Elems: els("int16", 3)})
 	add(ObjSpec{Name: "AS", Type: "slice", Ptr: false, ElemK: "string", Elems: els("string", 2)})
-	for _, f := range []string{"obs", "obsS", "cat", "boom", "neg", "sum3", "obsC", "inj"} {
+	for _, f := range []string{"obs", "obsS", "cat", "boom", "neg", "sum3", "obsC", "inj", "injS"} {
 		add(ObjSpec{Name: f, Type: "func", Func: f})
 	}
 	for _, k := range append(append([]string{}, numKinds...), "string", "bool") {
